@@ -6,6 +6,11 @@ ROOT = os.path.join(os.path.dirname(os.path.abspath(__file__)), "..")
 props = [json.loads(l) for l in open(os.path.join(ROOT, "properties.jsonl"))]
 
 CLAIMED = {
+    "C09": dict(
+        text="Lean theorems: (1) database-slot discipline - every control path of every closure that moves the engine's database out of its slot (regenerated from engine.rs on every run) puts it back before leaving, hence after ANY sequence of requests, whatever the EVM answered, the database is in place (induction over request sequences); an exit between take and restore is rejected and provably wedges every later request; (2) panic inventory - every unwrap / expect / panic! / assert! / indexing site of the shipped code (regenerated on every run) is in the reviewed table with the guard, invariant or theorem that keeps requests away from it (kernel `decide`), and the table has no stale rows; (3) the guards that have a model: empty / malformed payloads are refused (C15), an accepted reorg never reaches `Reorg too deep` (C01), refused calls are error answers. Tie: suite Z fires thousands of malformed and adversarial requests (every registered method with arbitrary JSON, all payload prefixes / truncations / bombs, random and pathological EVM code, every Bitcoin helper contract with ABI-valid and mangled input against a mock node, batches and broken envelopes) at the real RPC module, each behind a watchdog and followed by a liveness probe and periodic write rounds; suite P compares the real payload decoder with the model on every outcome including panics",
+        note="partial by nature: panics, unbounded loops, stack or memory exhaustion inside revm / alloy / bitcoin / zstd / rocksdb / jsonrpsee are parameters, exercised by suite Z only; the reviewed table is a human judgement per site. Trusted: Lean kernel (+ the three standard axioms), translators gen_slot.py / gen_panics.py, the harness",
+        technique="Lean 4 proof (induction over request sequences for the slot state machine; kernel decide over the regenerated path and site tables) + adversarial differential / liveness testing of the real RPC module",
+        ref="DESIGN.md §6 C09"),
     "C04": dict(
         text="Lean theorems: for every state reachable by a legal history of any length, every commit block, every write index i and every durable in-window target n, (first i persistent writes of the commit, process death, reopen, reorg n) does not panic and every key reads its value at the end of block n; the same for a crash at any write of the commit that ends a reorg; a crash with no write in flight loses only uncommitted work; crash after the last write = completed commit. Tie: suite T compares the per-key order of the persistent writes the real BlockCachedDatabase issues in commit/reorg (recorded by the failpoint hook) with the model's write list, plus on-disk rows; suite X kills the real engine process at sampled write indices of every commit / reorg of random histories, reopens, reorgs to a durable height and compares the whole observable state with a fresh replay",
         note="trusted: Lean kernel (+ propext, Classical.choice, Quot.sound); RocksDB single-write atomicity and persistence across process death (parameter; power-loss / fsync durability not modelled); failpoint hook; composition across the engine's tables is exercised (suite X), the theorems are per table. The defect found by the proof attempt (F18: history deleted before the value row was rewritten) was repaired by a fix: commit and is listed as fixed in known_findings.json",
